@@ -24,14 +24,14 @@ Fixpoint tableau_ok (f : form) : bool :=
   end.
 
 (* _holds_in_atom(phi, labels, Xs) *)
-Fixpoint holds (lab : list atom) (Xs : list form) (f : form) : bool :=
+Fixpoint holds_in (lab : list atom) (Xs : list form) (f : form) : bool :=
   match f with
   | FBool b => b
   | FAtom a => mema a lab
-  | FNot g => negb (holds lab Xs g)
-  | FOr fs => existsb (holds lab Xs) fs
+  | FNot g => negb (holds_in lab Xs g)
+  | FOr fs => existsb (holds_in lab Xs) fs
   | FX _ => memf f Xs
-  | FU g h => holds lab Xs h || (holds lab Xs g && memf (FX f) Xs)
+  | FU g h => holds_in lab Xs h || (holds_in lab Xs g && memf (FX f) Xs)
   | _ => false
   end.
 
@@ -50,7 +50,7 @@ Definition X_choices (cl : list form) : list (list form) :=
 (* _build_atoms: an atom is (state, closure formulas that hold) *)
 Definition tatom := (nat * list form)%type.
 Definition atoms (K : kripke) (cl : list form) : list tatom :=
-  flat_map (fun s => map (fun Xs => (s, filter (holds (labels_of K s) Xs) cl)) (X_choices cl))
+  flat_map (fun s => map (fun Xs => (s, filter (holds_in (labels_of K s) Xs) cl)) (X_choices cl))
            (states K).
 
 (* _does_respect_Xs *)
